@@ -18,9 +18,11 @@ structure FlagState where
   groups : List (List Str) := []
   deriving Repr, Inhabited
 
-/-- `IsMutuallyExclusive`: some member of one of the flag's groups was given - the flag itself counts -/
+/-- `IsMutuallyExclusive`: some member of one of the flag's groups was given - the flag itself counts; a flag of
+    that name counts only if it belongs to that very group (a local flag can shadow an inherited member by name;
+    since fix 39ab3c2, as cobra's own validation) -/
 def mutexBlocked (all : List FlagState) (f : FlagState) : Bool :=
-  f.groups.any (fun g => g.any (fun n => all.any (fun o => o.fdef.name == n && o.changed)))
+  f.groups.any (fun g => g.any (fun n => all.any (fun o => o.fdef.name == n && o.changed && o.groups.contains g)))
 
 /-- the four skip rules of `actionFlags` -/
 def offered (showHidden : Bool) (all : List FlagState) (f : FlagState) : Bool :=
